@@ -80,8 +80,10 @@ def schemata(lf):
         en = f"enumerate({lst})"
         return [A(f"list==type({lst})"),
                 forall(lst, A(f"each({lst}) in Y['services']")),
-                f_not(ex(en, ex(en + "'", f_and([f_not(A(f"each({en})'[0]==each({en})[0]")),
-                                                 A(f"each({en})'[1]==each({en})[1]")]))))]
+                # no duplicates: pairwise over two positions, or as many distinct values as entries
+                ("alt", (f_not(ex(en, ex(en + "'", f_and([f_not(A(f"each({en})'[0]==each({en})[0]")),
+                                                          A(f"each({en})'[1]==each({en})[1]")])))),
+                         nodup(lst)), 2)]
 
     def NORM(D):
         # the OS after normalisation: 'none' (any case) -> None, anything else unchanged
@@ -145,13 +147,21 @@ def schemata(lf):
     S += action_schemata("escalation", P, "Y['privilege_escalation'].items()", pk, "process",
                          "processes")
     en_sub = f"enumerate({SUB}[1:])"
+    rg_sub = f"range(1, len({SUB}))"
     S += [
         ("hosts.count", "as many host configurations as hosts", [],
          [A(f"(sum({SUB})-1)==len(Y['host_configurations'])")], None),
+        # (two enumerations of "every address of every non-internet subnet": the tail of the
+        # subnet list counted from 0, or the subnet numbers 1..n-1 themselves)
         ("hosts.all-addresses", "a configuration for every address of the network", [],
-         [f_not(ex(en_sub, ex(f"range(each({en_sub})[1])", f_not(A(
-             f"str(((each({en_sub})[0]+1), each(range(each({en_sub})[1])))) in "
-             f"Y['host_configurations']")))))], None),
+         [("alt", (
+             f_not(ex(en_sub, ex(f"range(each({en_sub})[1])", f_not(A(
+                 f"str(((each({en_sub})[0]+1), each(range(each({en_sub})[1])))) in "
+                 f"Y['host_configurations']"))))),
+             f_not(ex(rg_sub, ex(f"range({SUB}[each({rg_sub})])", f_not(A(
+                 f"str((each({rg_sub}), each(range({SUB}[each({rg_sub})])))) in "
+                 f"Y['host_configurations']"))))),
+         ), 2)], None),
         ("host.dict", "every host configuration is a dict", [HCI],
          [A(f"isinstance({HC}, dict)")], None),
         ("host.keys", "every host configuration has os, services, processes", [HCI, hk],
@@ -356,15 +366,37 @@ def run(ctx, chk):
     K = "each(Y)"
     vshow = cn.show(lf.ip._const_term(valid)) if okv else "?"
     oshow = cn.show(lf.ip._const_term(opt)) if oko else "?"
-    g1, near = find_guard(lf, f_or([A(f"{K} in {vshow}"), A(f"{K} in {oshow}")]), ["Y.items()"],
-                          None, swallowed)
-    chk.ob("C18.sections.unknown", "every key of the document is a required or optional section",
-           g1 is not None, "" if g1 else "no guard over all keys of the document", path)
-    tg = [g for g in lf.guards if g.loops == ["Y"] and lf.residual_formula(g) == ("true",)
-          and f_show(g.F).startswith("isinstance(Y[each(Y)], ")
-          and vshow in f_show(g.F) and oshow in f_show(g.F)]
-    chk.ob("C18.sections.types", "every section value is checked against the type table",
-           len(tg) >= 1, f"{len(tg)} guard(s)", path)
+    # the two tables may be consulted one after the other, or merged into one ({**A, **B})
+    merged = []
+    if okv and oko:
+        merged = [cn.show(lf.ip._const_term(dict(opt, **valid))),
+                  cn.show(lf.ip._const_term(dict(valid, **opt)))]
+    g1 = None
+    for want_k in [f_or([A(f"{K} in {vshow}"), A(f"{K} in {oshow}")])] + \
+            [A(f"{K} in {m_}") for m_ in merged]:
+        g1, near = find_guard(lf, want_k, ["Y.items()"], None, swallowed)
+        if g1 is not None:
+            break
+    other_tbl = [g for g in lf.guards if f"{K} in " in f_show(g.F)]
+    if g1 is None and other_tbl:
+        chk.undecided("C18.sections.unknown", "every key of the document is a required or optional "
+                      "section", "a membership guard over the keys exists, in a table that is not "
+                      f"decoded: {f_show(other_tbl[0].F)[:200]}", path)
+    else:
+        chk.ob("C18.sections.unknown", "every key of the document is a required or optional "
+               "section", g1 is not None, "" if g1 else "no guard over all keys of the document",
+               path)
+    tg0 = [g for g in lf.guards if g.loops == ["Y"] and lf.residual_formula(g) == ("true",)
+           and f_show(g.F).startswith("isinstance(Y[each(Y)], ")]
+    tg = [g for g in tg0 if (vshow in f_show(g.F) and oshow in f_show(g.F))
+          or any(m_ in f_show(g.F) for m_ in merged)]
+    if not tg and tg0:
+        chk.undecided("C18.sections.types", "every section value is checked against the type table",
+                      f"an isinstance guard over all sections exists, against a table that is not "
+                      f"decoded: {f_show(tg0[0].F)[:200]}", path)
+    else:
+        chk.ob("C18.sections.types", "every section value is checked against the type table",
+               len(tg) >= 1, f"{len(tg)} guard(s)", path)
     cnt = [g for g in lf.guards if not g.loops and lf.residual_formula(g) == ("true",)
            and f_show(g.F) in (f"!len(Y)<{len(DOC_SECTIONS)}", f"{len(DOC_SECTIONS) - 1}<len(Y)")]
     # every required section is read unconditionally (a missing one raises KeyError)
